@@ -49,12 +49,15 @@ CaseFree == \A x \in Lookups : CaseIndependent(x.n, x.inc, x.exc)
 (* universes *)
 S(a, b) == <<a, b>>
 A == "a"  B == "b"  C == ":"
+\* one long "letter" (130 bytes, none of them a, b, ':' or '*'): names that agree on a long prefix or suffix and
+\* in length -- whatever an implementation keys a cache on must still tell them apart
+L == "xxxxxxxxxxxxxxxxxxxxxxxxxxxxxxxxxxxxxxxxxxxxxxxxxxxxxxxxxxxxxxxxxxxxxxxxxxxxxxxxxxxxxxxxxxxxxxxxxxxxxxxxxxxxxxxxxxxxxxxxxxxxxxxxxx"
 NamesQ == {<<A>>, <<B>>, <<A, B>>, <<B, A>>, <<A, A>>, <<A, C, C, B>>, <<B, C, C, A>>, <<A, C, C, A>>,
-           <<A, C, B>>, <<A, B, C, C, A>>}
+           <<A, C, B>>, <<A, B, C, C, A>>, <<L, A>>, <<L, B>>, <<A, L>>, <<B, L>>}
 NamesT == NamesQ \cup {<<B, B>>, <<B, C, C, B>>, <<A, C, C, A, B>>, <<C, C>>, <<A, C, C>>, <<C, C, A>>,
                       <<A, A, B>>, <<A, C, C, B, C, C, A>>}
-CoresQ == NamesQ \cup {<<C>>, <<C, C>>}
-CoresT == NamesT \cup {<<C>>, <<C, A>>, <<A, C>>}
+CoresQ == (NamesQ \ {<<L, A>>, <<L, B>>, <<A, L>>, <<B, L>>}) \cup {<<C>>, <<C, C>>, <<L>>}
+CoresT == (NamesT \ {<<L, A>>, <<L, B>>, <<A, L>>, <<B, L>>}) \cup {<<C>>, <<C, A>>, <<A, C>>, <<L>>}
 St == "*"
 Star == <<St>>
 PatsFrom(cores) == {Star} \cup cores \cup {c \o Star : c \in cores} \cup {Star \o c : c \in cores}
